@@ -213,3 +213,55 @@ def func_params(fn: ast.FunctionDef) -> List[Tuple[str, str, Optional[ast.AST]]]
     if a.kwarg:
         out.append((a.kwarg.arg, "kwarg", None))
     return out
+
+
+class Locals:
+    """Single-assignment view of a function's locals (reaching definitions for the easy case)."""
+
+    def __init__(self, fn: ast.FunctionDef):
+        self.fn = fn
+        self.defs: Dict[str, List[ast.AST]] = {}
+        self.params = {p[0] for p in func_params(fn)}
+        for n in walk_local(fn, include_self=False):
+            if isinstance(n, ast.Assign):
+                for t in n.targets:
+                    self._bind(t, n.value)
+            elif isinstance(n, ast.AnnAssign) and n.value is not None:
+                self._bind(n.target, n.value)
+            elif isinstance(n, ast.AugAssign):
+                self._bind(n.target, n)
+            elif isinstance(n, (ast.For, ast.AsyncFor)):
+                self._bind(n.target, n)
+            elif isinstance(n, (ast.With, ast.AsyncWith)):
+                for it in n.items:
+                    if it.optional_vars is not None:
+                        self._bind(it.optional_vars, n)
+            elif isinstance(n, ast.NamedExpr):
+                self._bind(n.target, n.value)
+            elif isinstance(n, ast.ExceptHandler) and n.name:
+                self.defs.setdefault(n.name, []).append(n)
+
+    def _bind(self, t, v):
+        if isinstance(t, ast.Name):
+            self.defs.setdefault(t.id, []).append(v)
+        elif isinstance(t, (ast.Tuple, ast.List)):
+            for i, e in enumerate(t.elts):
+                if isinstance(v, (ast.Tuple, ast.List)) and len(v.elts) == len(t.elts):
+                    self._bind(e, v.elts[i])
+                else:
+                    self._bind(e, ast.Subscript(value=v, slice=ast.Constant(value=i), ctx=ast.Load()) if isinstance(v, ast.expr) else v)
+        elif isinstance(t, ast.Starred):
+            self._bind(t.value, v)
+
+    def rebound(self, name: str) -> bool:
+        return name in self.defs and (name in self.params or len(self.defs[name]) > 1)
+
+    def resolve(self, node: ast.AST, depth: int = 0) -> ast.AST:
+        """Follow Name -> its unique defining expression (parameters and multiply-assigned names stay)."""
+        while isinstance(node, ast.Name) and depth < 20:
+            ds = self.defs.get(node.id)
+            if node.id in self.params or not ds or len(ds) != 1 or not isinstance(ds[0], ast.expr):
+                return node
+            node = ds[0]
+            depth += 1
+        return node
